@@ -173,6 +173,8 @@ def run_halfclose(o, ctx):
     plans = [("P:S:%s,r,e/S:e" % hx(p1), [r200 + ",EOF", "EOF"]),
              ("P:s:%s,r,S:%s,r,e/S:e" % (hx(p1), hx(p1)), [r200 + "," + r200 + ",EOF", "EOF"]),
              ("P:s:%s,r,S:%s,r,e/P:S:%s,r,e/S:e" % (hx(po), hx(p1), hx(po)), ["R200:0:" + hx(b"abc") + "," + r200 + ",EOF", "R200:0:" + hx(b"abc") + ",EOF", "EOF"])]
+    # a connection waiting in the pool's queue is no reason to close a kept-alive one that neither side asked to close
+    plans.append(("P:s:%s,r,|,s:%s,r,s:%s,r,c,e/P:s:%s,|,r,c,e/S:e" % (hx(p1), hx(p1), hx(p1), hx(p1)), [",".join([r200] * 3 + ["EOF"]), r200 + ",EOF", "EOF"]))
     lines = ["SERVE mode=%s threads=%d plan=%s" % (m, th, pl) for pl, _ in plans for m in ("epoll", "serve") for th in (1, 2)]
     wants = [w for _, w in plans for m in ("epoll", "serve") for th in (1, 2)]
     impl = C.run_sharded(ctx["kimpl"], lines, shards=min(C.NCPU, len(lines)))
